@@ -1,5 +1,6 @@
 import Firefly.Util
 import Firefly.Model.AmlParser
+import Firefly.Model.AmlNs
 /-!
 Shared by the C11 and C12 replay drivers (core Lean only): table construction, edit scripts,
 the canonical tree dump (textually identical to `amlRow`/`amlObservation` of the Go harness),
@@ -11,12 +12,8 @@ open Firefly.Util Firefly.AmlTree Firefly.AmlLex Firefly.AmlParser
 open Firefly.Gen.C12 (headerLen invalidIndex opIntFreedObject opMethod opIntMethodCall opIntResolvedNamePath
   opIntNamedField opStringPrefix opIntNamePath opDwordPrefix)
 
-/-- header + payload exactly as `amlStream` (parser_fuzz.go): "DSDT", Length LE, Revision 2, zeros -/
-def mkTable (payload : Array UInt8) : Array UInt8 :=
-  let n := headerLen + payload.size
-  let hdr : Array UInt8 := #[0x44, 0x53, 0x44, 0x54,
-    UInt8.ofNat (n % 256), UInt8.ofNat (n / 256 % 256), UInt8.ofNat (n / 65536 % 256), UInt8.ofNat (n / 16777216 % 256), 2]
-  (hdr ++ Array.replicate (headerLen - 9) (0 : UInt8)) ++ payload
+/-- header + payload exactly as `amlStream` (parser_fuzz.go) -/
+def mkTable (payload : Array UInt8) : Array UInt8 := Firefly.AmlNs.mkTable payload
 
 def hexArr (s : String) : Array UInt8 := (hexBytes s).toArray
 
